@@ -228,7 +228,7 @@ def correspondence(ctx):
                    not bad, '%d disagreeing cases' % len(bad))
     ctx.rule = ('generated files with 0-6 section markers (adjacent, first/last line, marker look-alikes, blank lines, form feeds, '
                 'CRLF), independent or cumulative mode, walks of separate/next.../stop|resolve incl. past the end, with one planted '
-                'diagnostic per tool (syntax error, uninitialised read, 1/0) whose whole-file line is known; non-trivial = at least '
+                'diagnostic per tool (syntax error; uninitialised read or a TIFA issue located through an explicit node: for over a non-list / an empty list, append on a non-list; 1/0) whose whole-file line is known; non-trivial = at least '
                 'one marker and at least one diagnostic produced.')
 
 
